@@ -38,7 +38,7 @@ ATTRS = {"units": "m"}
 
 
 def budget(tier):
-    return {"quick": dict(examples=120, shards=1), "thorough": dict(examples=500, shards=16)}[tier]
+    return {"quick": dict(examples=120, shards=1), "thorough": dict(examples=1500, shards=16)}[tier]
 
 
 @st.composite
